@@ -40,11 +40,23 @@ Proof.
   - intros H. destruct (IH H) as [Hd [ch [Hin Hch]]]. split; [exact Hd|]. exists ch. split; [now right|exact Hch].
 Qed.
 
-Lemma km_user_cert c : km_user true c = true -> km_cert c.
+(* the loop over the deny list looks at every position *)
+Lemma deny_hit_false deny key : deny_hit deny key = false -> ~ In key deny.
 Proof.
-  unfold km_user, km_cert. destruct (km_walk true (x_denied c) (x_chains c)) eqn:W; try discriminate.
+  unfold deny_hit. intros H Hin.
+  assert (E : existsb (N.eqb key) deny = true).
+  { apply existsb_exists. exists key. split; [exact Hin|apply N.eqb_refl]. }
+  congruence.
+Qed.
+
+Lemma deny_hit_true deny key : In key deny -> deny_hit deny key = true.
+Proof. intros Hin. apply existsb_exists. exists key. split; [exact Hin|apply N.eqb_refl]. Qed.
+
+Lemma km_user_cert deny c : km_user true deny c = true -> km_cert deny c.
+Proof.
+  unfold km_user, km_cert. destruct (km_walk true (deny_hit deny (x_key c)) (x_chains c)) eqn:W; try discriminate.
   intros Hcn. apply km_walk_ok in W. destruct W as [Hd Hex].
-  split; [|split; [exact Hd|exact Hex]].
+  split; [|split; [apply deny_hit_false; exact Hd|exact Hex]].
   intros E. rewrite E in Hcn. discriminate.
 Qed.
 
@@ -60,8 +72,8 @@ Lemma neqb_neq a : negb (a =? 0) = true -> a <> 0.
 Proof. intros H E. subst. discriminate. Qed.
 
 (* exact level the certificate branch assigns *)
-Definition tls_level (required : N) (c : tlsx) : N :=
-  N.lor (if km_user true c then bKMX509 else 0)
+Definition tls_level (deny : list N) (required : N) (c : tlsx) : N :=
+  N.lor (if km_user true deny c then bKMX509 else 0)
         (if hasb required bIPCert then match ip_res c with IpOk => bIPCert | _ => 0 end else 0).
 Definition tls_iat (now : Z) (required : N) (c : tlsx) : Z :=
   if hasb required bIPCert then match ip_res c with IpOk => now | _ => x_nb c end else x_nb c.
@@ -75,20 +87,20 @@ Proof.
   intros H. inversion H. auto.
 Qed.
 
-Lemma tls_branch_accept now required c u l iat :
-  tls_branch true true now required c = Some (Admit u l iat) ->
-  u = x_cn c /\ u <> 0 /\ l = tls_level required c /\ iat = tls_iat now required c /\
+Lemma tls_branch_accept now deny required c u l iat :
+  tls_branch true true now deny required c = Some (Admit u l iat) ->
+  u = x_cn c /\ u <> 0 /\ l = tls_level deny required c /\ iat = tls_iat now required c /\
   hasb l required = true /\
   (l = bKMX509 \/ l = bIPCert \/ l = N.lor bKMX509 bIPCert) /\
-  (hasb l bKMX509 = true -> km_cert c) /\ (hasb l bIPCert = true -> ip_cert c).
+  (hasb l bKMX509 = true -> km_cert deny c) /\ (hasb l bIPCert = true -> ip_cert c).
 Proof.
   unfold tls_branch, tls_level, tls_iat. intros H.
-  assert (Hkm : km_user true c = true -> km_cert c) by apply km_user_cert.
-  assert (Hkm0 : km_user true c = true -> x_cn c <> 0).
-  { unfold km_user. destruct (km_walk true (x_denied c) (x_chains c)); try discriminate. apply neqb_neq. }
+  assert (Hkm : km_user true deny c = true -> km_cert deny c) by apply km_user_cert.
+  assert (Hkm0 : km_user true deny c = true -> x_cn c <> 0).
+  { unfold km_user. destruct (km_walk true (deny_hit deny (x_key c)) (x_chains c)); try discriminate. apply neqb_neq. }
   Ltac fin_tac := splits; auto; try (right; right; reflexivity); try (right; left; reflexivity);
     try (intros E; vm_compute in E; discriminate); try (intros _; apply ip_res_ok; auto).
-  destruct (km_user true c) eqn:K; destruct (hasb required bIPCert) eqn:RI.
+  destruct (km_user true deny c) eqn:K; destruct (hasb required bIPCert) eqn:RI.
   - destruct (ip_res c) eqn:IP; apply fin_inv in H; destruct H as (Hn & Hr & -> & -> & ->);
       try apply neqb_neq in Hn; fin_tac.
   - apply fin_inv in H. destruct H as (Hn & Hr & -> & -> & ->). fin_tac.
@@ -114,50 +126,64 @@ Qed.
 Lemma cookie_branch_accept now lim required cr u l iat :
   cookie_branch now lim required cr = Admit u l iat ->
   hasb l required = true /\
-  ((exists t, cr = Cookie t /\ valid_cookie now t /\ u = t_sub t /\ l = t_level t /\ iat = t_iat t) \/
-   (exists berr, cr = Basic u true berr /\ l = bPassword /\ iat = now)).
+  ((exists t, k_cookie cr = Some t /\ valid_cookie now t /\ u = t_sub t /\ l = t_level t /\ iat = t_iat t) \/
+   (exists b, k_cookie cr = None /\ k_basic cr = Some b /\ b_ok b = true /\ b_err b = false /\
+              u = b_user b /\ l = bPassword /\ iat = now)).
 Proof.
-  unfold cookie_branch. destruct cr as [|bu ok berr|t]; [discriminate| |].
-  - destruct (hasb required bPassword) eqn:HP; simpl; [|discriminate].
-    destruct lim; simpl; [|discriminate]. destruct berr; [discriminate|]. destruct ok; [|discriminate].
-    intros H. inversion H; subst. split; [now rewrite hasb_comm|]. right. exists false. auto.
+  unfold cookie_branch, basic_branch. destruct (k_cookie cr) as [t|].
   - destruct (token_ok now t) eqn:TK; simpl; [|discriminate].
     destruct (t_exp t <? now)%Z eqn:EX; [discriminate|].
     destruct (hasb (t_level t) required) eqn:HL; simpl; [|discriminate].
     intros H. inversion H; subst. split; [exact HL|]. left. exists t. splits; auto.
     now apply token_ok_valid.
+  - destruct (hasb required bPassword) eqn:HP; simpl; [|discriminate].
+    destruct (k_basic cr) as [b|]; [|discriminate].
+    destruct lim; simpl; [|discriminate]. destruct (b_err b) eqn:BE; [discriminate|].
+    destruct (b_ok b) eqn:BO; [|discriminate].
+    intros H. inversion H; subst. split; [now rewrite hasb_comm|]. right. exists b. splits; auto.
+Qed.
+
+(* a request that carries an auth_cookie is never let in on the strength of its basic-auth header *)
+Lemma cookie_present_no_basic now lim required cr t u l iat :
+  k_cookie cr = Some t -> cookie_branch now lim required cr = Admit u l iat ->
+  valid_cookie now t /\ u = t_sub t /\ l = t_level t /\ iat = t_iat t.
+Proof.
+  intros E H. apply cookie_branch_accept in H. destruct H as [_ [[t' (E' & V & Eu & El & Ei)]|[b (E' & _)]]].
+  - rewrite E in E'. inversion E'; subst t'. auto.
+  - congruence.
 Qed.
 
 (* ------------------------------------------------------------------ the gate *)
 
-Lemma csrf_passed sr mt now lim required q u l iat :
-  check_auth_gen sr mt now lim required q = Admit u l iat -> q_meth q <> GET -> origin_ok q.
+Lemma csrf_passed sr mt now lim deny required q u l iat :
+  check_auth_gen sr mt now lim deny required q = Admit u l iat -> q_meth q <> GET -> origin_ok q.
 Proof.
   unfold check_auth_gen, origin_ok. intros H Hm.
   destruct (q_meth q); [congruence| |]; destruct (q_origin q); auto; discriminate.
 Qed.
 
-Lemma csrf_refused sr mt now lim required q :
+Lemma csrf_refused sr mt now lim deny required q :
   q_meth q <> GET -> (q_origin q = CrossOrigin \/ q_origin q = BadOrigin) ->
-  exists code, check_auth_gen sr mt now lim required q = Refuse code.
+  exists code, check_auth_gen sr mt now lim deny required q = Refuse code.
 Proof.
   unfold check_auth_gen. intros Hm [E|E]; rewrite E; destruct (q_meth q); try congruence; eauto.
 Qed.
 
 (* what was decided, exactly: which credential, which identity, which level, which instant *)
-Definition established (now : Z) (required : N) (q : reqx) (u l : N) (iat : Z) : Prop :=
-  (exists t, q_cred q = Cookie t /\ valid_cookie now t /\ u = t_sub t /\ l = t_level t /\ iat = t_iat t) \/
-  (exists berr, q_cred q = Basic u true berr /\ l = bPassword /\ iat = now) \/
-  (exists c, q_tls q = Some c /\ u = x_cn c /\ u <> 0 /\ l = tls_level required c /\ iat = tls_iat now required c /\
-             (hasb l bKMX509 = true -> km_cert c) /\ (hasb l bIPCert = true -> ip_cert c)).
+Definition established (now : Z) (deny : list N) (required : N) (q : reqx) (u l : N) (iat : Z) : Prop :=
+  (exists t, k_cookie (q_cred q) = Some t /\ valid_cookie now t /\ u = t_sub t /\ l = t_level t /\ iat = t_iat t) \/
+  (exists b, k_cookie (q_cred q) = None /\ k_basic (q_cred q) = Some b /\ b_ok b = true /\ b_err b = false /\
+             u = b_user b /\ l = bPassword /\ iat = now) \/
+  (exists c, q_tls q = Some c /\ u = x_cn c /\ u <> 0 /\ l = tls_level deny required c /\ iat = tls_iat now required c /\
+             (hasb l bKMX509 = true -> km_cert deny c) /\ (hasb l bIPCert = true -> ip_cert c)).
 
-Lemma gate_cases now lim required q u l iat :
-  check_auth now lim required q = Admit u l iat ->
-  hasb l required = true /\ proves now q u l /\ established now required q u l iat.
+Lemma gate_cases now lim deny required q u l iat :
+  check_auth now lim deny required q = Admit u l iat ->
+  hasb l required = true /\ proves now deny q u l /\ established now deny required q u l iat.
 Proof.
   unfold check_auth, check_auth_gen. intros H.
   assert (Hpass : match q_tls q with
-                  | Some c => if hasb required (N.lor bIPCert bKMX509) then tls_branch true true now required c else None
+                  | Some c => if hasb required (N.lor bIPCert bKMX509) then tls_branch true true now deny required c else None
                   | None => None end = Some (Admit u l iat) \/
                   cookie_branch now lim required (q_cred q) = Admit u l iat).
   { destruct (q_meth q); destruct (q_origin q); try discriminate;
@@ -171,47 +197,128 @@ Proof.
     split; [exact Hreq|]. split.
     + right. right. exists c. splits; auto.
     + right. right. exists c. splits; auto.
-  - apply cookie_branch_accept in Hc. destruct Hc as [Hreq [[t (E & V & Eu & El & Ei)]|[berr (E & El & Ei)]]].
+  - apply cookie_branch_accept in Hc.
+    destruct Hc as [Hreq [[t (E & V & Eu & El & Ei)]|[b (E0 & E & Bo & Be & Eu & El & Ei)]]].
     + split; [exact Hreq|]. split.
       * left. exists t. auto.
       * left. exists t. auto.
     + split; [exact Hreq|]. split.
-      * right. left. exists berr. auto.
-      * right. left. exists berr. auto.
+      * right. left. exists b. auto.
+      * right. left. exists b. splits; auto.
 Qed.
 
-Theorem gate_sound now lim required q u l iat :
-  check_auth now lim required q = Admit u l iat ->
-  proves now q u l /\ hasb l required = true /\ (q_meth q <> GET -> origin_ok q).
+Theorem gate_sound now lim deny required q u l iat :
+  check_auth now lim deny required q = Admit u l iat ->
+  proves now deny q u l /\ hasb l required = true /\ (q_meth q <> GET -> origin_ok q).
 Proof.
-  intros H. destruct (gate_cases _ _ _ _ _ _ _ H) as (Hreq & Hp & _).
-  split; [exact Hp|]. split; [exact Hreq|]. exact (csrf_passed _ _ _ _ _ _ _ _ _ H).
+  intros H. destruct (gate_cases _ _ _ _ _ _ _ _ H) as (Hreq & Hp & _).
+  split; [exact Hp|]. split; [exact Hreq|]. exact (csrf_passed _ _ _ _ _ _ _ _ _ _ H).
 Qed.
 
-Theorem identity_real now lim required q u l iat :
-  check_auth now lim required q = Admit u l iat -> established now required q u l iat.
-Proof. intros H. exact (proj2 (proj2 (gate_cases _ _ _ _ _ _ _ H))). Qed.
+Theorem identity_real now lim deny required q u l iat :
+  check_auth now lim deny required q = Admit u l iat -> established now deny required q u l iat.
+Proof. intros H. exact (proj2 (proj2 (gate_cases _ _ _ _ _ _ _ _ H))). Qed.
 
-(* a deny-listed key never contributes the keymaster-certificate bit; an IP-restricted
-   certificate presented from outside its netblocks never contributes the IP bit *)
-Corollary never_denied now lim required q u l iat c :
-  check_auth now lim required q = Admit u l iat -> q_tls q = Some c -> x_denied c = true ->
-  hasb l bKMX509 = true -> exists t, q_cred q = Cookie t /\ valid_cookie now t /\ l = t_level t.
+(* a deny-listed key — at whatever position of a deny list of whatever length — never contributes
+   the keymaster-certificate bit; an IP-restricted certificate presented from outside its
+   netblocks never contributes the IP bit *)
+Corollary never_denied now lim deny required q u l iat c :
+  check_auth now lim deny required q = Admit u l iat -> q_tls q = Some c -> In (x_key c) deny ->
+  hasb l bKMX509 = true -> exists t, k_cookie (q_cred q) = Some t /\ valid_cookie now t /\ l = t_level t.
 Proof.
-  intros H TL D HK. destruct (identity_real _ _ _ _ _ _ _ H) as [[t (E & V & _ & El & _)]|[[berr (E & El & _)]|[c' (TL' & _ & _ & _ & _ & Hkm & _)]]].
+  intros H TL D HK.
+  destruct (identity_real _ _ _ _ _ _ _ _ H) as [[t (E & V & _ & El & _)]|[[b (_ & _ & _ & _ & _ & El & _)]|[c' (TL' & _ & _ & _ & _ & Hkm & _)]]].
   - exists t. auto.
   - subst l. vm_compute in HK. discriminate.
-  - rewrite TL in TL'. inversion TL'; subst c'. destruct (Hkm HK) as (_ & D' & _). congruence.
+  - rewrite TL in TL'. inversion TL'; subst c'. destruct (Hkm HK) as (_ & D' & _). contradiction.
 Qed.
 
-Corollary never_outside now lim required q u l iat c :
-  check_auth now lim required q = Admit u l iat -> q_tls q = Some c -> x_ip_valid c = false ->
-  hasb l bIPCert = true -> exists t, q_cred q = Cookie t /\ valid_cookie now t /\ l = t_level t.
+(* the same, said position by position: when the identity let in is the certificate's, with the
+   keymaster-certificate bit, then no index of the deny list holds the leaf's key *)
+Corollary deny_no_position now lim deny required q u l iat c :
+  check_auth now lim deny required q = Admit u l iat -> q_tls q = Some c -> k_cookie (q_cred q) = None ->
+  hasb l bKMX509 = true -> forall i, nth_error deny i <> Some (x_key c).
 Proof.
-  intros H TL D HK. destruct (identity_real _ _ _ _ _ _ _ H) as [[t (E & V & _ & El & _)]|[[berr (E & El & _)]|[c' (TL' & _ & _ & _ & _ & _ & Hip)]]].
+  intros H TL NC HK i Hi. apply nth_error_In in Hi.
+  destruct (never_denied _ _ _ _ _ _ _ _ _ H TL Hi HK) as (t & E & _). congruence.
+Qed.
+
+Corollary never_outside now lim deny required q u l iat c :
+  check_auth now lim deny required q = Admit u l iat -> q_tls q = Some c -> x_ip_valid c = false ->
+  hasb l bIPCert = true -> exists t, k_cookie (q_cred q) = Some t /\ valid_cookie now t /\ l = t_level t.
+Proof.
+  intros H TL D HK.
+  destruct (identity_real _ _ _ _ _ _ _ _ H) as [[t (E & V & _ & El & _)]|[[b (_ & _ & _ & _ & _ & El & _)]|[c' (TL' & _ & _ & _ & _ & _ & Hip)]]].
   - exists t. auto.
   - subst l. vm_compute in HK. discriminate.
   - rewrite TL in TL'. inversion TL'; subst c'. destruct (Hip HK) as (_ & _ & D' & _). congruence.
+Qed.
+
+(* ------------------------------------------------------------------ credential combinations *)
+
+(* the password is looked at only when the request has no auth_cookie and the mask has the password bit *)
+Theorem basic_only_without_cookie now lim deny required q u l iat :
+  check_auth now lim deny required q = Admit u l iat ->
+  (exists t, k_cookie (q_cred q) = Some t) \/ hasb required bPassword = false ->
+  (exists t, k_cookie (q_cred q) = Some t /\ valid_cookie now t /\ u = t_sub t /\ l = t_level t) \/
+  (exists c, q_tls q = Some c /\ u = x_cn c /\ hasb l (N.lor bKMX509 bIPCert) = true).
+Proof.
+  intros H Hc.
+  destruct (gate_cases _ _ _ _ _ _ _ _ H) as (Hreq & _ & [[t (E & V & Eu & El & _)]|[[b (E0 & _ & _ & _ & _ & El & _)]|[c (TL & Eu & _ & El & _ & _ & _)]]]).
+  - left. exists t. auto.
+  - exfalso. destruct Hc as [[t E]|Hp]; [congruence|].
+    subst l. rewrite hasb_comm in Hp. congruence.
+  - right. exists c. split; [exact TL|]. split; [exact Eu|].
+    subst l. unfold tls_level in *.
+    destruct (km_user true deny c); destruct (hasb required bIPCert); try destruct (ip_res c);
+      try (vm_compute; reflexivity);
+      (change (N.lor 0 0) with 0 in Hreq; rewrite hasb_zero_l in Hreq; discriminate).
+Qed.
+
+Lemma webui_level_bits l : forall acc b,
+  hasb (fold_left (fun a x => N.lor a (backend_bit x)) l acc) b = true ->
+  hasb acc b = true \/ exists x, In x l /\ hasb (backend_bit x) b = true.
+Proof.
+  induction l as [|x r IH]; intros acc b H; simpl in *; [now left|].
+  destruct (IH _ _ H) as [Ha|[y [Hin Hy]]].
+  - unfold hasb in *. rewrite N.land_lor_distr_l in Ha.
+    destruct (N.land acc b =? 0) eqn:A; [|now left].
+    right. exists x. split; [now left|]. apply N.eqb_eq in A. rewrite A in Ha. exact Ha.
+  - right. exists y. split; [now right|exact Hy].
+Qed.
+
+(* a web-UI backend list without `password` gives a mask without the password bit and without
+   certificate bits *)
+Lemma webui_no_password l : ~ In BPassword l -> hasb (webui_level l) bPassword = false.
+Proof.
+  intros Hn. destruct (hasb (webui_level l) bPassword) eqn:H; [|reflexivity]. exfalso.
+  destruct (webui_level_bits _ _ _ H) as [H0|[x [Hin Hx]]]; [rewrite hasb_zero_l in H0; discriminate|].
+  destruct x; try (vm_compute in Hx; discriminate). contradiction.
+Qed.
+
+Lemma webui_no_cert_bits l : hasb (webui_level l) (N.lor bIPCert bKMX509) = false.
+Proof.
+  destruct (hasb (webui_level l) (N.lor bIPCert bKMX509)) eqn:H; [|reflexivity]. exfalso.
+  destruct (webui_level_bits _ _ _ H) as [H0|[x [Hin Hx]]]; [rewrite hasb_zero_l in H0; discriminate|].
+  destruct x; vm_compute in Hx; discriminate.
+Qed.
+
+(* where the web UI does not take passwords, whoever is let in by a web-UI endpoint holds a valid
+   session cookie for exactly that user and level — whatever else the request carries *)
+Theorem webui_without_password now lim deny backends q u l iat :
+  ~ In BPassword backends ->
+  check_auth now lim deny (webui_level backends) q = Admit u l iat ->
+  exists t, k_cookie (q_cred q) = Some t /\ valid_cookie now t /\ u = t_sub t /\ l = t_level t /\
+            hasb (t_level t) (webui_level backends) = true.
+Proof.
+  intros Hn H.
+  destruct (gate_cases _ _ _ _ _ _ _ _ H) as (Hreq & _ & _).
+  unfold check_auth, check_auth_gen in H. rewrite webui_no_cert_bits in H.
+  assert (Hc : cookie_branch now lim (webui_level backends) (q_cred q) = Admit u l iat).
+  { destruct (q_meth q); destruct (q_origin q); try discriminate; destruct (q_tls q); exact H. }
+  apply cookie_branch_accept in Hc. destruct Hc as [_ [[t (E & V & Eu & El & _)]|[b (_ & _ & _ & _ & _ & El & _)]]].
+  - exists t. splits; auto. subst l. exact Hreq.
+  - exfalso. subst l. rewrite hasb_comm in Hreq. rewrite (webui_no_password _ Hn) in Hreq. discriminate.
 Qed.
 
 (* ------------------------------------------------------------------ refutations for the old branches *)
@@ -220,31 +327,31 @@ Definition role_chain := {| ch_len2 := true; ch_role_ca := true; ch_key_trusted 
 Definition main_chain := {| ch_len2 := true; ch_role_ca := false; ch_key_trusted := true |}.
 (* an automation certificate for 10.0.0.0/8 presented from 192.168.1.1 with its real chain *)
 Definition outside_cert : tlsx :=
-  {| x_chains := [role_chain]; x_cn := 4; x_denied := false; x_nb := 0%Z; x_ip_error := false;
+  {| x_chains := [role_chain]; x_cn := 4; x_key := 1; x_nb := 0%Z; x_ip_error := false;
      x_ip_valid := false; x_auto_error := false; x_automation := true; x_revoked := false |}.
 (* an ordinary user certificate issued by the main CA *)
 Definition user_cert : tlsx :=
-  {| x_chains := [main_chain]; x_cn := 1; x_denied := false; x_nb := 0%Z; x_ip_error := false;
+  {| x_chains := [main_chain]; x_cn := 1; x_key := 1; x_nb := 0%Z; x_ip_error := false;
      x_ip_valid := false; x_auto_error := false; x_automation := false; x_revoked := false |}.
 Definition with_cert (m : meth) (c : tlsx) : reqx :=
-  {| q_meth := m; q_origin := NoOrigin; q_tls := Some c; q_cred := NoCred |}.
+  {| q_meth := m; q_origin := NoOrigin; q_tls := Some c; q_cred := no_cred |}.
 
 Lemma old_role_refuted :
-  exists now lim required q u l iat,
-    check_auth_gen false true now lim required q = Admit u l iat /\ ~ proves now q u l.
+  exists now lim deny required q u l iat,
+    check_auth_gen false true now lim deny required q = Admit u l iat /\ ~ proves now deny q u l.
 Proof.
-  exists 100%Z, true, bAny, (with_cert POST outside_cert), 4, bKMX509, 0%Z.
+  exists 100%Z, true, [], bAny, (with_cert POST outside_cert), 4, bKMX509, 0%Z.
   split; [vm_compute; reflexivity|].
-  intros [[t [E _]]|[[berr [E _]]|[c (TL & _ & _ & Hkm & _)]]]; try discriminate.
+  intros [[t [E _]]|[[b [E _]]|[c (TL & _ & _ & Hkm & _)]]]; try discriminate.
   inversion TL; subst c. destruct (Hkm eq_refl) as (_ & _ & ch & Hin & _ & Hr & _).
   destruct Hin as [<-|[]]. discriminate.
 Qed.
 
 Lemma old_mask_refuted :
-  exists now lim required q u l iat,
-    check_auth_gen true false now lim required q = Admit u l iat /\ hasb l required = false.
+  exists now lim deny required q u l iat,
+    check_auth_gen true false now lim deny required q = Admit u l iat /\ hasb l required = false.
 Proof.
-  exists 100%Z, true, bIPCert, (with_cert POST user_cert), 1, bKMX509, 0%Z.
+  exists 100%Z, true, [], bIPCert, (with_cert POST user_cert), 1, bKMX509, 0%Z.
   split; vm_compute; reflexivity.
 Qed.
 
@@ -256,11 +363,11 @@ Variable q : reqx.
 
 Definition inv (f : flags) (id : ident) : Prop :=
   (forall m, f_auth f = Some m ->
-     exists u l, id = Some (u, l) /\ proves (e_now env) q u l /\
+     exists u l, id = Some (u, l) /\ proves (e_now env) (e_deny env) q u l /\
                  hasb l (mask_val (e_webui env) m) = true /\ (q_meth q <> GET -> origin_ok q)) /\
   (forall x, In x (f_extras f) -> exists u l, id = Some (u, l) /\ extra_ok x env u l) /\
   (f_own f = true -> e_own env = true) /\
-  (f_pw f = true -> exists u berr, q_cred q = Basic u true berr).
+  (f_pw f = true -> exists b, k_basic (q_cred q) = Some b /\ b_ok b = true).
 
 Lemma inv0 id : inv flags0 id.
 Proof. repeat split; simpl; intros; try discriminate; contradiction. Qed.
@@ -297,10 +404,10 @@ Proof.
   destruct s; simpl in *.
   - (* SMeth *) destruct (existsb (meth_eqb (q_meth q)) l); [eapply IH; eauto | contradiction].
   - (* SAuth *)
-    destruct (check_auth (e_now env) (e_limiter env) (mask_val (e_webui env) m) q) as [u l iat|code] eqn:CA;
+    destruct (check_auth (e_now env) (e_limiter env) (e_deny env) (mask_val (e_webui env) m) q) as [u l iat|code] eqn:CA;
       [|contradiction].
     eapply IH; [exact G| |exact Hin].
-    destruct (gate_sound _ _ _ _ _ _ _ CA) as (Hp & Hh & Hc). destruct I as (_ & _ & Io & _).
+    destruct (gate_sound _ _ _ _ _ _ _ _ CA) as (Hp & Hh & Hc). destruct I as (_ & _ & Io & _).
     repeat split; simpl; auto.
     + intros m' E. inversion E; subst m'. exists u, l. auto.
     + contradiction.
@@ -328,12 +435,12 @@ Proof.
     destruct (e_own env) eqn:O; [|contradiction].
     eapply IH; [exact G| |exact Hin]. destruct I as (Ia & Ix & Io & Ip). repeat split; simpl; auto.
   - (* SPassword *)
-    destruct (q_cred q) as [|bu ok berr|t] eqn:CR; try contradiction.
-    destruct (e_limiter env && negb berr && ok) eqn:A; [|contradiction].
+    destruct (k_basic (q_cred q)) as [b|] eqn:CR; try contradiction.
+    destruct (e_limiter env && negb (b_err b) && b_ok b) eqn:A; [|contradiction].
     eapply IH; [exact G| |exact Hin]. destruct I as (_ & _ & Io & _).
-    apply andb_true_iff in A. destruct A as [_ A]. subst ok.
+    apply andb_true_iff in A. destruct A as [_ A].
     repeat split; simpl; auto; try discriminate; try contradiction.
-    intros _. exists bu, berr. exact CR.
+    intros _. exists b. auto.
   - (* SCheck *) destruct (e_check env); [eapply IH; eauto | contradiction].
   - (* SEff *)
     apply andb_true_iff in G. destruct G as [Ga Gr].
@@ -356,10 +463,10 @@ Proof.
     intros Hng. apply orb_true_iff in Hng. destruct Hng as [Hng|Hng]; [auto|].
     apply negb_true_iff in Hng. intros E. rewrite E in B. congruence.
   - (* SAuth *)
-    destruct (check_auth (e_now env) (e_limiter env) (mask_val (e_webui env) m) q) as [u' l' iat|code] eqn:CA;
+    destruct (check_auth (e_now env) (e_limiter env) (e_deny env) (mask_val (e_webui env) m) q) as [u' l' iat|code] eqn:CA;
       [|contradiction].
     eapply IH; [exact S| |exact Hn|exact Hin|exact Hs].
-    intros _. exact (csrf_passed _ _ _ _ _ _ _ _ _ CA).
+    intros _. exact (csrf_passed _ _ _ _ _ _ _ _ _ _ CA).
   - destruct id as [[u l]|]; [|contradiction]. destruct (e_admin env u); [eapply IH; eauto|contradiction].
   - destruct id as [[u l]|]; [|contradiction]. destruct (e_autoadmin env u); [eapply IH; eauto|contradiction].
   - destruct id as [[u l]|]; [|contradiction].
@@ -368,8 +475,8 @@ Proof.
     destruct ((e_target env =? 0) || e_admin env u); [eapply IH; eauto|contradiction].
   - destruct id as [[u l]|]; [|contradiction]. destruct (e_target env =? u); [eapply IH; eauto|contradiction].
   - destruct (e_own env); [eapply IH; eauto|contradiction].
-  - destruct (q_cred q) as [|bu ok berr|t]; try contradiction.
-    destruct (e_limiter env && negb berr && ok); [eapply IH; eauto | contradiction].
+  - destruct (k_basic (q_cred q)) as [b|]; try contradiction.
+    destruct (e_limiter env && negb (b_err b) && b_ok b); [eapply IH; eauto | contradiction].
   - destruct (e_check env); [eapply IH; eauto|contradiction].
   - (* SEff *)
     apply andb_true_iff in S. destruct S as [Se Sr].
